@@ -222,7 +222,12 @@ func newEnvWorldAlg(seed int64, mSameAlg bool, hAlg string) (*envWorld, error) {
 	ew.P, ew.Q, ew.S = w.principals["P"], w.principals["Q"], w.principals["S"]
 	ew.cids = []cid.Cid{missingCid(1), missingCid(2), missingCid(3)}
 
-	pol, _ := policy.FromDagJson(`[["==", ".x", 1]]`)
+	// the honest delegation's policy: a comparison, and like patterns whose adjacent stars must come back as signed (an escaped
+	// star followed by a wildcard; two wildcards in a row)
+	pol, perr := policy.FromDagJson(basePolicyJSON)
+	if perr != nil {
+		return nil, fmt.Errorf("base policy: %w", perr)
+	}
 	for _, cmdText := range baseCommands {
 		if !command.IsValid(cmdText) {
 			return nil, fmt.Errorf("base command %q is not a valid command", cmdText)
@@ -239,6 +244,11 @@ func newEnvWorldAlg(seed int64, mSameAlg bool, hAlg string) (*envWorld, error) {
 			return nil, err
 		}
 		if base["dlg"], err = partsOf(ds, "dlg"); err != nil {
+			return nil, err
+		}
+		// the policy goes onto the wire as written here, not as a parser of the library would normalise it
+		base["dlg"].payload["pol"] = polNode(basePolicyJSON)
+		if err := base["dlg"].signBy(ew.H); err != nil {
 			return nil, err
 		}
 		inv, err := invocation.New(ew.H.id, ew.S.id, cmd, []cid.Cid{ew.cids[0]}, invocation.WithAudience(ew.P.id),
@@ -295,6 +305,8 @@ var badDids = []string{"did:web:example.com", "did:key:", "", "did:key:zABC", "d
 var shortNonces = []int{5, 1, 11}
 var badPolicies = []string{`[["xor", ".x", 1]]`, `[["==", "x", 1]]`, `[["like", ".x", "a\\"]]`, `[["and", ".x"]]`, `[["==", ".x"]]`, `{}`, `[["not", ["=="]]]`, `[[]]`}
 
+const basePolicyJSON = `[["==", ".x", 1], ["like", ".n?", "\\**"], ["not", ["like", ".n?", "a**b"]]]`
+
 const foreignHeaders = 6
 
 func repsOf(c envCase) int {
@@ -319,6 +331,8 @@ func repsOf(c envCase) int {
 			k = len(shortNonces)
 		case op.A == "pol" && op.B == "bad":
 			k = len(badPolicies)
+		case op.A == "pol" && (op.B == "oob" || op.B == "oobneg" || op.B == "u64"):
+			k = 5
 		}
 		if k > n {
 			n = k
@@ -392,12 +406,27 @@ func (ew *envWorld) classValue(e *envelopeParts, f, c string) (ipld.Node, bool, 
 			return polNode(badPolicies[ew.rot%len(badPolicies)]), true, nil
 		case "wrongkind":
 			return str("x"), true, nil
-		case "oob":
-			return listOf(listOf(str("=="), str(".x"), basicnode.NewInt(1<<53))), true, nil
-		case "oobneg":
-			return listOf(listOf(str(">"), str(".x"), basicnode.NewInt(-(1 << 53)))), true, nil
-		case "u64":
-			return listOf(listOf(str("=="), str(".x"), bigU64)), true, nil
+		case "oob", "oobneg", "u64":
+			// the out-of-range integer as the literal itself, inside a list literal, inside a map literal, inside a literal
+			// under a quantifier / a negation
+			var v ipld.Node = basicnode.NewInt(1 << 53)
+			op := "=="
+			if c == "oobneg" {
+				v, op = basicnode.NewInt(-(1 << 53)), ">"
+			} else if c == "u64" {
+				v = bigU64
+			}
+			switch ew.rot % 5 {
+			case 1:
+				return listOf(listOf(str("=="), str(".x"), listOf(basicnode.NewInt(1), v))), true, nil
+			case 2:
+				return listOf(listOf(str("=="), str(".x"), mapNode(map[string]ipld.Node{"a": basicnode.NewInt(1), "b": v}))), true, nil
+			case 3:
+				return listOf(listOf(str("all"), str(".l"), listOf(str("not"), listOf(str("=="), str("."), listOf(listOf(v)))))), true, nil
+			case 4:
+				return listOf(listOf(str("or"), listOf(listOf(str("=="), str(".x"), basicnode.NewInt(1)), listOf(str(op), str(".x"), v)))), true, nil
+			}
+			return listOf(listOf(str(op), str(".x"), v)), true, nil
 		}
 	case "args":
 		switch c {
